@@ -197,6 +197,18 @@ def _exit_tag(blk, tag, tagging):
             rv = s["rv"]
             if rv["rk"] == "agg" and rv.get("ak") == "adt" and rv.get("adt") == "std::result::Result" and tagging in (True, "std::result::Result"):
                 tag = OK if rv.get("variant") == "Ok" else ERR
+                if tag == OK and rv.get("ops"):
+                    # Ok(None) / Ok(Some(..)) built right here: remember which (Result<Option<T>> helpers)
+                    pl_ = flow.operand_local(rv["ops"][0])
+                    for s2 in blk["stmts"]:
+                        if s2 is s:
+                            break
+                        if s2["sk"] == "assign" and s2["pl"]["l"] == pl_ and not s2["pl"]["p"] and pl_ is not None:
+                            rv2 = s2["rv"]
+                            if rv2["rk"] == "agg" and rv2.get("ak") == "adt" and rv2.get("adt") == "std::option::Option" and "vidx" in rv2:
+                                tag = "ok:v%d" % int(rv2["vidx"])
+                            else:
+                                tag = OK
             elif rv["rk"] == "agg" and rv.get("ak") == "adt" and rv.get("adt") == tagging and "vidx" in rv:
                 tag = "v%d" % int(rv["vidx"])          # which variant of the returned enum was built on this path
             else:
@@ -345,7 +357,7 @@ def _thread(B, c0, r_local, tagging=True, tags=(OK, ERR)):
             if tested is not None and (tested in try_dest or (tested in carriers and B.locals[tested].startswith(head))):
                 found = {}
                 for tg in tags:
-                    if tg == OK:
+                    if tg == OK or (isinstance(tg, str) and tg.startswith("ok:")):
                         found[tg] = arms.get(0, t["otherwise"])
                     elif tg == ERR:
                         found[tg] = arms.get(1, t["otherwise"])
@@ -358,17 +370,30 @@ def _thread(B, c0, r_local, tagging=True, tags=(OK, ERR)):
         return {}
     if not found:
         return {}
+    # second level: Ok(None) / Ok(Some(..)) - follow the Ok arm on to the test of the payload
+    chains = {tg: list(chain) for tg in found}
+    lvl2 = [tg for tg in found if isinstance(tg, str) and tg.startswith("ok:v")]
+    if lvl2 and found[lvl2[0]] is not None:
+        second = _second_level(B, found[lvl2[0]], tested, set(chain))
+        if second is not None:
+            chain2, arms2, other2 = second
+            for tg in lvl2:
+                chains[tg] = list(chain) + chain2
+                found[tg] = arms2.get(int(tg[4:]), other2)
     out = {}
     for tag, target in sorted(found.items()):
         if target is None:
             continue
+        chain = chains[tag]
         base = len(B.blocks)
         for k, b in enumerate(chain):
             blk = copy.deepcopy(B.blocks[b])
             blk["thr"] = tag
             if k + 1 < len(chain):
                 t = blk["term"]
-                if t["tk"] in ("goto", "drop", "call"):
+                if t["tk"] == "switch":
+                    blk["term"] = _goto(base + k + 1, t)
+                elif t["tk"] in ("goto", "drop", "call"):
                     t["t"] = base + k + 1
                     if "unwind" in t:
                         t["unwind"] = None
@@ -378,6 +403,44 @@ def _thread(B, c0, r_local, tagging=True, tags=(OK, ERR)):
         out[tag] = base
     B.n = len(B.blocks)
     return out
+
+
+def _second_level(B, start, tested1, seen):
+    """From the Ok arm of the first test follow the straight line to a switch on the discriminant of the Ok /
+    Continue payload (an Option). Returns (blocks on the way incl. the switch block, {value: target}, otherwise)."""
+    payload = set()
+    chain2 = []
+    cur = start
+    for _ in range(24):
+        if cur is None or cur in chain2 or cur in seen:
+            return None
+        blk = B.blocks[cur]
+        if blk["cleanup"]:
+            return None
+        chain2.append(cur)
+        for st in blk["stmts"]:
+            if st["sk"] == "assign" and not st["pl"]["p"] and st["rv"]["rk"] == "use":
+                op = st["rv"]["ops"][0]
+                if op.get("k") in ("copy", "move") and op["pl"]["l"] == tested1 and op["pl"]["p"] and op["pl"]["p"][0] in ("dc:Continue", "dc:Ok"):
+                    payload |= flow.result_carriers(B, st["pl"]["l"])
+                elif op.get("k") in ("copy", "move") and not op["pl"]["p"] and op["pl"]["l"] in payload:
+                    payload.add(st["pl"]["l"])
+        t = blk["term"]
+        k = t["tk"]
+        if k in ("goto", "drop"):
+            cur = t["t"]
+            continue
+        if k == "switch":
+            dl = flow.operand_local(t["discr"])
+            for st in reversed(blk["stmts"]):
+                if st["sk"] == "assign" and st["pl"]["l"] == dl and not st["pl"]["p"]:
+                    if st["rv"]["rk"] == "discr" and not st["rv"]["pl"]["p"] and st["rv"]["pl"]["l"] in payload \
+                            and B.locals[st["rv"]["pl"]["l"]].startswith("std::option::Option"):
+                        return chain2, {int(a[0]): a[1] for a in t["arms"]}, t["otherwise"]
+                    break
+            return None
+        return None
+    return None
 
 
 # ------------------------------------------------------------------------------------------------
